@@ -87,7 +87,10 @@ def class_of(t):
 # A: real SERVER under test, raw malicious client
 # ---------------------------------------------------------------------------
 
-SERVER_PHASES = ['P2', 'P3', 'P4']
+# P4r / P4s: authenticated, after a completed key RE-exchange started by the
+# raw client / by the server under test (the gate must be the same as in P4)
+SERVER_PHASES = ['P2', 'P3', 'P4', 'P4r', 'P4s']
+MODEL_PHASE = {'P4r': 'P4n', 'P4s': 'P4n'}
 
 
 def run_server_case(phase=None, pkttype=None, body=b'', second=None):
@@ -164,6 +167,17 @@ def run_server_case(phase=None, pkttype=None, body=b'', second=None):
     send(50, rawpeer.userauth_request('u', 'none'))
     if phase == 'P4':
         inject()
+    if phase in ('P4r', 'P4s'):
+        def rekey():
+            c = raw if phase == 'P4r' else res['sconn']
+            c._send_kexinit()
+            c._kexinit_sent = True
+        nk = [res['sconn']._recv_seq]
+        loop.run_callback(rekey)
+        loop.run_until_idle()
+        if not (raw._kex_complete and res['sconn']._kex_complete):
+            log.append('rekey-incomplete')
+        inject()
     send(90, rawpeer.session_open(chan=5))
     conf = [p for t, p in raw.inbox if t == 91]
     send(98, UInt32(0) + String(b'exec') + Boolean(True) + String(b'cmd'))
@@ -185,7 +199,8 @@ def run_server_case(phase=None, pkttype=None, body=b'', second=None):
 # ---------------------------------------------------------------------------
 
 CLIENT_POINTS = ['before_accept', 'after_accept', 'before_failure',
-                 'after_failure', 'before_success', 'after_success']
+                 'after_failure', 'before_success', 'after_success',
+                 'after_rekey']
 
 
 def run_client_case(point=None, pkttype=None, body=b'', second=None,
@@ -249,6 +264,20 @@ def run_client_case(point=None, pkttype=None, body=b'', second=None,
                     _send(52, b'')
                     if point == 'after_success':
                         inject()
+                    if point == 'after_rekey':
+                        # a complete re-exchange started by the server, then
+                        # the injection
+                        async def later():
+                            conn._send_kexinit()
+                            conn._kexinit_sent = True
+                            for _ in range(200):
+                                await asyncio.sleep(0)
+                                if conn._kex_complete:
+                                    break
+                            else:
+                                log.append('rekey-incomplete')
+                            inject()
+                        res['later'] = asyncio.ensure_future(later())
 
         conn.on_packet = on_packet
 
